@@ -400,3 +400,51 @@ func constantToFloat(c *ssa.Const) (float64, bool) {
 	f, ok := constant.Float64Val(constant.ToFloat(c.Value))
 	return f, ok
 }
+
+// countingInfo describes "for i := init; i < bound; i++" as go/ssa builds it.
+type countingInfo struct {
+	OK    bool
+	Phi   *ssa.Phi
+	Init  ssa.Value
+	Bound ssa.Value
+	Op    string // "<" or "<="
+	Step  int64
+}
+
+func analyseCounting(l *Loop) countingInfo {
+	h := l.Header
+	ifi, ok := h.Instrs[len(h.Instrs)-1].(*ssa.If)
+	if !ok {
+		return countingInfo{}
+	}
+	cmp, ok := ifi.Cond.(*ssa.BinOp)
+	if !ok || (cmp.Op.String() != "<" && cmp.Op.String() != "<=") {
+		return countingInfo{}
+	}
+	phi, ok := cmp.X.(*ssa.Phi)
+	if !ok || phi.Block() != h {
+		return countingInfo{}
+	}
+	ci := countingInfo{Phi: phi, Bound: cmp.Y, Op: cmp.Op.String()}
+	for i, e := range phi.Edges {
+		if l.Blocks[h.Preds[i]] {
+			inc, ok := e.(*ssa.BinOp)
+			if !ok || inc.Op.String() != "+" || inc.X != ssa.Value(phi) {
+				return countingInfo{}
+			}
+			st, ok := constInt(inc.Y)
+			if !ok {
+				return countingInfo{}
+			}
+			ci.Step = st
+		} else {
+			ci.Init = e
+		}
+	}
+	// the loop is entered on the true edge
+	if !l.Blocks[h.Succs[0]] {
+		return countingInfo{}
+	}
+	ci.OK = ci.Init != nil && ci.Step != 0
+	return ci
+}
